@@ -64,7 +64,7 @@ func c06Oracle(c SSOCase, r *ssoRun) []*ev.Violation {
 	if len(okCalls) == 0 {
 		return nil
 	}
-	if len(r.Sent.Violated) > 0 {
+	if len(r.Sent.Violated) > 0 && len(r.Sent.Ambiguous) == 0 {
 		return []*ev.Violation{ev.V("C06/accepted:"+r.Sent.Violated[0], "request accepted although it violates: %v (defects injected: %v)", r.Sent.Violated, c.defectNames())}
 	}
 	return nil
